@@ -10,6 +10,8 @@ into a group owned by `t` -/
 def quietFor (t : Nat) (s : Sys) : Label → Bool
   | .raise x _ => x != t
   | .caught x _ => x != t
+  | .enterfail x _ o => !(x == t && o.isExc)          -- a disposable of the victim raising while the scope is entered
+  | .cleanupEnd x _ o _ => !(x == t && o.isExc)       -- … or during the cleanup (it replaces whatever was propagating)
   | .reap c =>
     match (s.tasks c).status, (s.tasks c).member with
     | .done o, some g => !(o.isExc && (s.groups g).owner == t)
@@ -144,7 +146,7 @@ theorem K_abort_other {t g : Nat} {s : Sys} (hw : Wf s) (hk : K t s) (ho : (s.gr
 
 /-- labels whose whole effect is an update of one task's own record -/
 def Label.local? : Label → Option Nat
-  | .start x | .silentEnd x | .enter x _ false | .enterfail x _ | .spawnfail x _ | .await x _ | .resume x _ _
+  | .start x | .silentEnd x | .enter x _ false | .enterfail x _ _ | .spawnfail x _ | .await x _ | .resume x _ _
   | .raise x _ | .caught x _ | .check x _ | .cancelself x | .end_ x _ | .cancel x => some x
   | _ => none
 
@@ -158,6 +160,106 @@ theorem bodyOutcome_cases {T : Task} {o : Outcome} (h : bodyOutcome T = some o) 
   unfold bodyOutcome at h; split at h <;> simp_all
 
 theorem GroupOk_fresh (t : Nat) : GroupOk { owner := t, entered := true } := by simp [GroupOk, Outcome.isExc]
+
+/-- the victim's own group exit begins with a reason that is not a user exception -/
+theorem beginExit_K_self {s : Sys} (hw : Wf s) (h2 : Wf2 s) (x b : Nat) (o : Outcome) (rest : List Frame)
+    (hfr : (s.tasks x).frames = ⟨b, true⟩ :: rest)
+    (hst : (s.tasks x).status = .body ∨ ∃ o', (s.tasks x).status = .unwinding o')
+    (hgk : ∀ g, (s.groups g).owner = x → GroupOk (s.groups g)) (hoex : o.isExc = false)
+    (howed : (s.tasks x).owed = true → (s.tasks x).mustCancel = true ∨ o = .cancelled) :
+    K x (beginExit s x b o) := by
+  have hin : b ∈ asyncGroups (s.tasks x).frames := by rw [hfr]; simp [asyncGroups_cons]
+  obtain ⟨hown, hent⟩ := hw.frames_owner x b hin
+  have hnw : ∀ g susp, (s.tasks x).status ≠ .exitWait g susp := by
+    intro g susp hh; rcases hst with e | ⟨o', e⟩ <;> rw [e] at hh <;> cases hh
+  obtain ⟨herr, hpcr, hbx, habt⟩ := hgk b hown
+  have hnex : (s.groups b).exiting = false := by
+    cases he : (s.groups b).exiting with
+    | false => rfl
+    | true => obtain ⟨susp, hh⟩ := h2.exiting_wait x b hin he; exact absurd hh (hnw b susp)
+  have hnab : (s.groups b).aborting = false := by
+    cases ha : (s.groups b).aborting with
+    | false => rfl
+    | true => have := (habt ha).1; rw [hnex] at this; cases this
+  -- state before the optional abort
+  have hk1 : K x (setGroup (setTask s x (exitTask (s.tasks x) (s.groups b) b)) b (exitGroup (s.tasks x) (s.groups b) o)) ∧
+      ((o ≠ .ok) → reraises (exitGroup (s.tasks x) (s.groups b) o)) := by
+    have hrr : o ≠ .ok → reraises (exitGroup (s.tasks x) (s.groups b) o) := by
+      intro hne
+      cases o with
+      | ok => exact absurd rfl hne
+      | cancelled => left; simp [exitGroup]
+      | exc b' => simp [Outcome.isExc] at hoex
+    refine ⟨⟨?_, ?_, ?_⟩, hrr⟩
+    · intro g hg
+      simp only [setGroup_groups] at hg ⊢
+      split
+      · refine ⟨by simp [exitGroup, herr], by simp [exitGroup, hpcr], by simp [exitGroup, hoex], ?_⟩
+        intro ha; simp [exitGroup, hnab] at ha
+      · rename_i e; simp only [e, ↓reduceIte] at hg; exact hgk g hg
+    · intro b'; simp [exitTask]
+    · intro ho
+      simp only [setGroup_tasks, setTask_tasks, ↓reduceIte, exitTask] at ho ⊢
+      rcases howed ho with h | h
+      · exact Or.inl h
+      · right; right; left
+        refine ⟨b, _, rfl, ?_⟩
+        simp only [setGroup_groups, ↓reduceIte]
+        subst h; left; simp [exitGroup]
+  unfold beginExit
+  simp only
+  split
+  · rename_i hcond
+    -- abort of the victim's own group: members get requests; the group is aborting and re-raises
+    have hone : o ≠ .ok := by intro e; subst e; simp at hcond
+    generalize hS : setGroup (setTask s x (exitTask (s.tasks x) (s.groups b) b)) b
+      (exitGroup (s.tasks x) (s.groups b) o) = S at hk1
+    have hSb : S.groups b = exitGroup (s.tasks x) (s.groups b) o := by rw [← hS]; simp
+    refine ⟨?_, ?_, ?_⟩
+    · intro g hg
+      simp only [abort_groups] at hg ⊢
+      split
+      · rename_i e; subst e
+        have := hk1.1.groups g (by simpa using hg)
+        refine ⟨this.1, this.2.1, this.2.2.1, fun _ => ⟨?_, ?_⟩⟩
+        · rw [hSb]; simp [exitGroup]
+        · have := hk1.2 hone; rw [← hSb] at this; exact this
+      · rename_i e; simp only [e, ↓reduceIte] at hg; exact hk1.1.groups g hg
+    · intro b'; rw [abort_status]; exact hk1.1.noexc b'
+    · intro ho
+      rw [abort_owed] at ho
+      have h0 := hk1.1.owed ho
+      have h1 : Owed S.groups ((abort S b).tasks x) := by
+        simp only [abort_tasks]; split
+        · exact h0.requestCancel
+        · exact h0
+      refine h1.mono ?_
+      intro b' susp _ hr
+      simp only [abort_groups]; split
+      · rename_i e; subst e; exact hr
+      · exact hr
+  · exact hk1.1
+
+/-- somebody else's group exit begins -/
+theorem beginExit_K_other {t : Nat} {s : Sys} (hw : Wf s) (hk : K t s) (x b : Nat) (o : Outcome) (rest : List Frame)
+    (hx : x ≠ t) (hfr : (s.tasks x).frames = ⟨b, true⟩ :: rest)
+    (hst : (s.tasks x).status = .body ∨ ∃ o', (s.tasks x).status = .unwinding o') : K t (beginExit s x b o) := by
+  have hin : b ∈ asyncGroups (s.tasks x).frames := by rw [hfr]; simp [asyncGroups_cons]
+  obtain ⟨hown, hent⟩ := hw.frames_owner x b hin
+  have hown' : (s.groups b).owner ≠ t := fun e => hx (hown.symm.trans e)
+  have h1 := K_setTask_other hk hx (exitTask (s.tasks x) (s.groups b) b)
+  have hw1 : Wf (setTask s x (exitTask (s.tasks x) (s.groups b) b)) := by
+    exact Wf_setTask hw x _ (by
+      unfold exitTask
+      rcases hst with e | ⟨o', e⟩ <;> (constructor <;> simp_all [isDone, isLive]))
+  have h2' := K_setGroup_other hw1 h1 (exitGroup (s.tasks x) (s.groups b) o) (by simpa using hown') (by simpa using hent)
+    (by simpa [exitGroup] using hown')
+  unfold beginExit
+  simp only
+  split
+  · refine K_abort_other ?_ h2' (by simpa [exitGroup] using hown')
+    exact Wf_setGroup hw1 b _ ⟨rfl, rfl, rfl, fun hh => by simp [hent] at hh⟩ (fun hh => hh)
+  · exact h2'
 
 theorem step_K {t : Nat} {s s' : Sys} {l : Label} (hw : Wf s) (h2 : Wf2 s) (hk : K t s)
     (hq : quietFor t s l = true) (hs : step s l = some s') : K t s' := by
@@ -209,7 +311,7 @@ theorem step_K {t : Nat} {s s' : Sys} {l : Label} (hw : Wf s) (h2 : Wf2 s) (hk :
     · simp only [Option.some.injEq] at hs; subst hs
       exact K_setTask hk _ (by simp) (fun _ => Or.inr (Or.inr (Or.inr rfl)))
     · simp at hs
-  | enterfail x b =>
+  | enterfail x b o =>
     have hx : x = t := by
       cases Decidable.em (x = t) with
       | inl e => exact e
@@ -217,8 +319,13 @@ theorem step_K {t : Nat} {s s' : Sys} {l : Label} (hw : Wf s) (h2 : Wf2 s) (hk :
     subst hx
     simp only [step] at hs
     split at hs
-    · simp only [Option.some.injEq] at hs; subst hs
-      exact K_setTask hk _ (by simp) (fun _ => Or.inr (Or.inl rfl))
+    · split at hs
+      · simp at hs
+      · simp [quietFor, Outcome.isExc] at hq
+      · split at hs
+        · simp only [Option.some.injEq] at hs; subst hs
+          exact K_setTask hk _ (by simp) (fun _ => Or.inr (Or.inl rfl))
+        · simp at hs
     · simp at hs
   | spawnfail x c =>
     have hx : x = t := by
@@ -436,108 +543,78 @@ theorem step_K {t : Nat} {s s' : Sys} {l : Label} (hw : Wf s) (h2 : Wf2 s) (hk :
         obtain ⟨hf, hbo⟩ := hc
         subst hf
         simp only [Option.some.injEq] at hs; subst hs
-        have hin : b ∈ asyncGroups (s.tasks x).frames := by rw [hfr]; simp [asyncGroups_cons]
-        obtain ⟨hown, hent⟩ := hw.frames_owner x b hin
+        have hst := bodyOutcome_status hbo
         have hstx := bodyOutcome_cases hbo
-        have hnw : ∀ g susp, (s.tasks x).status ≠ .exitWait g susp := by
-          intro g susp hh; rcases hstx with ⟨e, _⟩ | e <;> rw [e] at hh <;> cases hh
         by_cases hx : x = t
         · subst hx
-          have hgo := hk.groups b hown
-          obtain ⟨herr, hpcr, hbx, habt⟩ := hgo
-          have hnex : (s.groups b).exiting = false := by
-            cases he : (s.groups b).exiting with
-            | false => rfl
-            | true => obtain ⟨susp, hh⟩ := h2.exiting_wait x b hin he; exact absurd hh (hnw b susp)
-          have hnab : (s.groups b).aborting = false := by
-            cases ha : (s.groups b).aborting with
-            | false => rfl
-            | true => have := (habt ha).1; rw [hnex] at this; cases this
-          have hoex : o.isExc = false := by
-            rcases hstx with ⟨_, rfl⟩ | e
+          refine beginExit_K_self hw h2 x b o rest hfr hst hk.groups ?_ ?_
+          · rcases hstx with ⟨_, rfl⟩ | e
             · rfl
             · cases o with
               | exc b' => exact absurd e (hk.noexc b')
               | _ => rfl
-          -- state before the optional abort
-          have hk1 : K x (setGroup (setTask s x (exitTask (s.tasks x) (s.groups b) b)) b (exitGroup (s.tasks x) (s.groups b) o)) ∧
-              ((o ≠ .ok) → reraises (exitGroup (s.tasks x) (s.groups b) o)) := by
-            have hprop : (exitGroup (s.tasks x) (s.groups b) o).propagate = (o == .cancelled) := by
-              simp [exitGroup, hpcr]
-            have hrr : o ≠ .ok → reraises (exitGroup (s.tasks x) (s.groups b) o) := by
-              intro hne
-              cases o with
-              | ok => exact absurd rfl hne
-              | cancelled => left; simp [exitGroup]
-              | exc b' => simp [Outcome.isExc] at hoex
-            refine ⟨⟨?_, ?_, ?_⟩, hrr⟩
-            · intro g hg
-              simp only [setGroup_groups] at hg ⊢
-              split
-              · refine ⟨by simp [exitGroup, herr], by simp [exitGroup, hpcr], by simp [exitGroup, hoex], ?_⟩
-                intro ha; simp [exitGroup, hnab] at ha
-              · rename_i e; simp only [e, ↓reduceIte] at hg; exact hk.groups g hg
-            · intro b'; simp [exitTask]
-            · intro ho
-              simp only [setGroup_tasks, setTask_tasks, ↓reduceIte, exitTask] at ho ⊢
+          · intro ho
+            rcases hk.owed ho with h | h | ⟨b', susp, h, _⟩ | h
+            · exact Or.inl h
+            · right
+              rcases hstx with ⟨e, _⟩ | e
+              · rw [e] at h; cases h
+              · rw [e] at h; simp only [Status.unwinding.injEq] at h; exact h
+            · rcases hst with e | ⟨o', e⟩ <;> rw [e] at h <;> cases h
+            · rcases hst with e | ⟨o', e⟩ <;> rw [e] at h <;> cases h
+        · exact beginExit_K_other hw hk x b o rest hx hfr hst
+      · simp at hs
+    · simp at hs
+  | cleanupEnd x b o consumed =>
+    simp only [step] at hs
+    split at hs
+    · rename_i f rest o0 hfr hbo
+      split at hs
+      · rename_i hf
+        subst hf
+        have hst := bodyOutcome_status hbo
+        have hstx := bodyOutcome_cases hbo
+        split at hs
+        · split at hs
+          · rename_i hcc
+            simp only [Option.some.injEq] at hs; subst hs
+            have hq : TaskQuiet2 (s.tasks x) { s.tasks x with mustCancel := false } := by
+              rcases hst with hst | ⟨o', hst⟩ <;>
+                (refine ⟨by constructor <;> simp_all [isDone, isLive], ?_, ?_, ?_, ?_, ?_⟩ <;> simp_all)
+            have hw1 := Wf_setTask hw x { s.tasks x with mustCancel := false } hq.base
+            have h21 := Wf2_setTask h2 x { s.tasks x with mustCancel := false } hq
+            by_cases hx : x = t
+            · subst hx
+              exact beginExit_K_self hw1 h21 x b .cancelled rest (by simpa using hfr) (by simpa using hst)
+                hk.groups rfl (fun _ => Or.inr rfl)
+            · exact beginExit_K_other hw1 (K_setTask_other hk hx _) x b .cancelled rest hx (by simpa using hfr) (by simpa using hst)
+          · simp at hs
+        · split at hs
+          · rename_i hcc
+            simp only [Option.some.injEq] at hs; subst hs
+            by_cases hx : x = t
+            · subst hx
+              have hne : o.isExc = false := by
+                cases he : o.isExc with
+                | false => rfl
+                | true => simp [quietFor, he] at hq
+              have hoo : o = o0 := by
+                rcases hcc with e | e
+                · exact e
+                · rw [hne] at e; cases e
+              subst hoo
+              refine beginExit_K_self hw h2 x b o rest hfr hst hk.groups hne ?_
+              intro ho
               rcases hk.owed ho with h | h | ⟨b', susp, h, _⟩ | h
               · exact Or.inl h
-              · right; right; left
-                refine ⟨b, _, rfl, ?_⟩
-                simp only [setGroup_groups, ↓reduceIte]
+              · right
                 rcases hstx with ⟨e, _⟩ | e
                 · rw [e] at h; cases h
-                · rw [e] at h; simp only [Status.unwinding.injEq] at h; subst h; left; simp [exitGroup]
-              · exact absurd h (hnw b' susp)
-              · rcases hstx with ⟨e, _⟩ | e <;> rw [e] at h <;> cases h
-          unfold beginExit
-          simp only
-          split
-          · rename_i hcond
-            -- abort of the victim's own group: members get requests; the group is aborting and re-raises
-            have hone : o ≠ .ok := by intro e; subst e; simp at hcond
-            generalize hS : setGroup (setTask s x (exitTask (s.tasks x) (s.groups b) b)) b
-              (exitGroup (s.tasks x) (s.groups b) o) = S at hk1
-            have hSb : S.groups b = exitGroup (s.tasks x) (s.groups b) o := by rw [← hS]; simp
-            refine ⟨?_, ?_, ?_⟩
-            · intro g hg
-              simp only [abort_groups] at hg ⊢
-              split
-              · rename_i e; subst e
-                have := hk1.1.groups g (by simpa using hg)
-                refine ⟨this.1, this.2.1, this.2.2.1, fun _ => ⟨?_, ?_⟩⟩
-                · rw [hSb]; simp [exitGroup]
-                · have := hk1.2 hone; rw [← hSb] at this; exact this
-              · rename_i e; simp only [e, ↓reduceIte] at hg; exact hk1.1.groups g hg
-            · intro b'; rw [abort_status]; exact hk1.1.noexc b'
-            · intro ho
-              rw [abort_owed] at ho
-              have h0 := hk1.1.owed ho
-              have h1 : Owed S.groups ((abort S b).tasks x) := by
-                simp only [abort_tasks]; split
-                · exact h0.requestCancel
-                · exact h0
-              refine h1.mono ?_
-              intro b' susp _ hr
-              simp only [abort_groups]; split
-              · rename_i e; subst e; exact hr
-              · exact hr
-          · exact hk1.1
-        · -- somebody else's scope
-          have hown' : (s.groups b).owner ≠ t := fun e => hx (hown.symm.trans e)
-          have h1 := K_setTask_other hk hx (exitTask (s.tasks x) (s.groups b) b)
-          have hw1 : Wf (setTask s x (exitTask (s.tasks x) (s.groups b) b)) := by
-            exact Wf_setTask hw x _ (by
-              unfold exitTask
-              rcases hstx with ⟨e, _⟩ | e <;> (constructor <;> simp_all [isDone, isLive]))
-          have h2' := K_setGroup_other hw1 h1 (exitGroup (s.tasks x) (s.groups b) o) (by simpa using hown') (by simpa using hent)
-            (by simpa [exitGroup] using hown')
-          unfold beginExit
-          simp only
-          split
-          · refine K_abort_other ?_ h2' (by simpa [exitGroup] using hown')
-            exact Wf_setGroup hw1 b _ ⟨rfl, rfl, rfl, fun hh => by simp [hent] at hh⟩ (fun hh => hh)
-          · exact h2'
+                · rw [e] at h; simp only [Status.unwinding.injEq] at h; exact h
+              · rcases hst with e | ⟨o', e⟩ <;> rw [e] at h <;> cases h
+              · rcases hst with e | ⟨o', e⟩ <;> rw [e] at h <;> cases h
+            · exact beginExit_K_other hw hk x b o rest hx hfr hst
+          · simp at hs
       · simp at hs
     · simp at hs
   | left x b o =>
@@ -758,19 +835,40 @@ theorem DC_setTask {s : Sys} (h : ∀ c, DC (s.tasks c)) (t : Nat) (T' : Task) (
   · exact h'
   · exact h c
 
+theorem beginExit_DC {s : Sys} (h : ∀ c, DC (s.tasks c)) (t b : Nat) (o : Outcome) : ∀ c, DC ((beginExit s t b o).tasks c) := by
+  have h1 : ∀ c, DC ((setGroup (setTask s t (exitTask (s.tasks t) (s.groups b) b)) b (exitGroup (s.tasks t) (s.groups b) o)).tasks c) :=
+    DC_setTask h t _ (by intro hd; simp [isDone, exitTask] at hd)
+  unfold beginExit; simp only; split
+  · exact DC_abort h1 b
+  · exact h1
+
 theorem step_DC {s s' : Sys} {l : Label} (h : ∀ c, DC (s.tasks c)) (hs : step s l = some s') : ∀ c, DC (s'.tasks c) := by
   cases l with
   | bodyEnd t b o =>
     simp only [step] at hs
     split at hs
     · split at hs
-      · rename_i hc
-        simp only [Option.some.injEq] at hs; subst hs
-        have h1 : ∀ c, DC ((setGroup (setTask s t (exitTask (s.tasks t) (s.groups b) b)) b (exitGroup (s.tasks t) (s.groups b) o)).tasks c) :=
-          DC_setTask h t _ (by intro hd; simp [isDone, exitTask] at hd)
-        unfold beginExit; simp only; split
-        · exact DC_abort h1 b
-        · exact h1
+      · simp only [Option.some.injEq] at hs; subst hs
+        exact beginExit_DC h t b o
+      · simp at hs
+    · simp at hs
+  | cleanupEnd t b o consumed =>
+    simp only [step] at hs
+    split at hs
+    · rename_i f rest o0 hfr hbo
+      split at hs
+      · split at hs
+        · split at hs
+          · simp only [Option.some.injEq] at hs; subst hs
+            refine beginExit_DC (DC_setTask h t _ ?_) t b .cancelled
+            intro hd
+            have := bodyOutcome_status hbo
+            rcases this with e | ⟨o', e⟩ <;> simp [isDone, e] at hd
+          · simp at hs
+        · split at hs
+          · simp only [Option.some.injEq] at hs; subst hs
+            exact beginExit_DC h t b o
+          · simp at hs
       · simp at hs
     · simp at hs
   | deliver t =>
@@ -838,6 +936,19 @@ theorem OW_requestCancel (T : Task) : OW T (requestCancel T) := fun h h' => ⟨b
 theorem OW_trans {A B C : Task} (h1 : OW A B) (h2 : OW B C) : OW A C := fun h h' => by
   obtain ⟨a, b⟩ := h1 h h'; exact h2 a b
 
+theorem beginExit_OW (s : Sys) (t b : Nat) (o : Outcome) : ∀ c, OW (s.tasks c) ((beginExit s t b o).tasks c) := by
+  intro c
+  have h1 : OW (s.tasks c) ((setGroup (setTask s t (exitTask (s.tasks t) (s.groups b) b)) b (exitGroup (s.tasks t) (s.groups b) o)).tasks c) := by
+    simp only [setGroup_tasks, setTask_tasks]; split
+    · rename_i e; subst e; intro h h'; exact ⟨h, by simp [exitTask]⟩
+    · exact OW_rfl _
+  unfold beginExit; simp only; split
+  · refine OW_trans h1 ?_
+    simp only [abort_tasks]; split
+    · exact OW_requestCancel _
+    · exact OW_rfl _
+  · exact h1
+
 theorem step_owed {s s' : Sys} {l : Label} (hw : Wf s) (hs : step s l = some s') : ∀ c, OW (s.tasks c) (s'.tasks c) := by
   have habort : ∀ (S : Sys) g c, OW (S.tasks c) ((abort S g).tasks c) := by
     intro S g c; simp only [abort_tasks]; split
@@ -866,14 +977,27 @@ theorem step_owed {s s' : Sys} {l : Label} (hw : Wf s) (hs : step s l = some s')
     split at hs
     · split at hs
       · simp only [Option.some.injEq] at hs; subst hs
-        intro c
-        have h1 : OW (s.tasks c) ((setGroup (setTask s t (exitTask (s.tasks t) (s.groups b) b)) b (exitGroup (s.tasks t) (s.groups b) o)).tasks c) := by
-          simp only [setGroup_tasks, setTask_tasks]; split
-          · rename_i e; subst e; intro h h'; exact ⟨h, by simp [exitTask]⟩
-          · exact OW_rfl _
-        unfold beginExit; simp only; split
-        · exact OW_trans h1 (habort _ b c)
-        · exact h1
+        exact beginExit_OW s t b o
+      · simp at hs
+    · simp at hs
+  | cleanupEnd t b o consumed =>
+    simp only [step] at hs
+    split at hs
+    · rename_i f rest o0 hfr hbo
+      split at hs
+      · split at hs
+        · split at hs
+          · simp only [Option.some.injEq] at hs; subst hs
+            intro c
+            refine OW_trans ?_ (beginExit_OW _ t b .cancelled c)
+            simp only [setTask_tasks]; split
+            · rename_i e; subst e; exact fun h h' => ⟨h, h'⟩
+            · exact OW_rfl _
+          · simp at hs
+        · split at hs
+          · simp only [Option.some.injEq] at hs; subst hs
+            exact beginExit_OW s t b o
+          · simp at hs
       · simp at hs
     · simp at hs
   | deliver t =>
@@ -996,6 +1120,17 @@ theorem GI_setGroup {s : Sys} (h : ∀ g, GI (s.groups g)) (b : Nat) (G' : Group
   · exact h'
   · exact h g
 
+theorem beginExit_GI {s : Sys} (h : ∀ g, GI (s.groups g)) (t b : Nat) (o : Outcome) : ∀ g, GI ((beginExit s t b o).groups g) := by
+  unfold beginExit; simp only; split
+  · exact GI_abort b (fun g hg => by simpa [hg] using h g)
+  · rename_i hc
+    refine GI_setGroup (s := setTask s t _) h b _ ?_
+    have hh : o = .ok ∨ (s.groups b).aborting = true := by
+      cases o <;> cases ha : (s.groups b).aborting <;> simp_all
+    rcases hh with rfl | ha
+    · exact ⟨fun hne => by simp [exitGroup] at hne, fun hp => by simp [exitGroup] at hp⟩
+    · exact ⟨fun _ => by simp [exitGroup, ha], fun _ => by simp [exitGroup, ha]⟩
+
 theorem step_GI {s s' : Sys} {l : Label} (h : ∀ g, GI (s.groups g)) (hs : step s l = some s') : ∀ g, GI (s'.groups g) := by
   cases l with
   | bodyEnd t b o =>
@@ -1003,15 +1138,22 @@ theorem step_GI {s s' : Sys} {l : Label} (h : ∀ g, GI (s.groups g)) (hs : step
     split at hs
     · split at hs
       · simp only [Option.some.injEq] at hs; subst hs
-        unfold beginExit; simp only; split
-        · exact GI_abort b (fun g hg => by simpa [hg] using h g)
-        · rename_i hc
-          refine GI_setGroup (s := setTask s t _) h b _ ?_
-          have hh : o = .ok ∨ (s.groups b).aborting = true := by
-            cases o <;> cases ha : (s.groups b).aborting <;> simp_all
-          rcases hh with rfl | ha
-          · exact ⟨fun hne => by simp [exitGroup] at hne, fun hp => by simp [exitGroup] at hp⟩
-          · exact ⟨fun _ => by simp [exitGroup, ha], fun _ => by simp [exitGroup, ha]⟩
+        exact beginExit_GI h t b o
+      · simp at hs
+    · simp at hs
+  | cleanupEnd t b o consumed =>
+    simp only [step] at hs
+    split at hs
+    · split at hs
+      · split at hs
+        · split at hs
+          · simp only [Option.some.injEq] at hs; subst hs
+            exact beginExit_GI (s := setTask s t _) h t b .cancelled
+          · simp at hs
+        · split at hs
+          · simp only [Option.some.injEq] at hs; subst hs
+            exact beginExit_GI h t b o
+          · simp at hs
       · simp at hs
     · simp at hs
   | deliver t =>
